@@ -291,6 +291,8 @@ class DumpCase:
         self.kwargs_param = False
         self.model = None
         self.layout = None
+        self.model_name = "M"
+        self.twin = None
 
     def build(self):
         from . import family
@@ -300,9 +302,9 @@ class DumpCase:
                    for f in self.fields}
             self.model = TypedDict("TD", ann)
         else:
-            self.model = family.make_dataclass_model(self.fields)
+            self.model = family.make_dataclass_model(self.fields, name=self.model_name)
         nm = {k: v for k, v in self.nm.items() if k != "extra_in"}
-        self.layout = layout(self.fields, **nm)
+        self.layout = layout(self.fields, dumping=True, **nm)
         return self
 
     def recipe(self):
@@ -330,7 +332,52 @@ class DumpCase:
         return provs + [name_mapping(self.model, **kw)]
 
 
-def dumper_family(tier="quick"):
+def hostile_dumper_family(tier="quick"):
+    from adaptix import DebugTrail
+
+    from . import family
+    from .family import F, O
+    cases = []
+    quick = tier != "thorough"
+    dts = [DebugTrail.ALL, DebugTrail.DISABLE] if quick else list(DebugTrail)
+    keys = list(family.HOSTILE_KEYS)
+
+    def add(label, fields, nm, dt, twin_fields=None, omit=False, kind="dataclass", model_name="M"):
+        twin_fields = twin_fields or fields
+        c = DumpCase(f"dump:hostile:{label}/{dt.name}", fields, nm, dt, model_kind=kind, omit_default=omit)
+        c.model_name = model_name
+        c.twin = DumpCase(f"dump:twin:{label}/{dt.name}", twin_fields, family._rename_nm(nm, fields, twin_fields), dt,
+                          model_kind=kind, omit_default=omit)
+        cases.append(c)
+    gi = 0
+    for gname, ids in family.HOSTILE_ID_GROUPS.items():
+        fields = [F(ids[0]), F(ids[1]), F(ids[2], O, ("value", "x")), F(ids[3], O, ("value", 5))]
+        twin_fields = family._benign_twin_fields(fields)
+        ks = [keys[(gi * 4 + j) % len(keys)] for j in range(4)]
+        gi += 1
+        for dt in dts:
+            add(f"{gname}/plain", fields, {}, dt, twin_fields)
+            add(f"{gname}/plain+omit", fields, {}, dt, twin_fields, omit=True)
+            add(f"{gname}/hostile-keys+omit", fields, {"map": dict(zip(ids, ks))}, dt, twin_fields, omit=True)
+            add(f"{gname}/hostile-nested", fields, {"map": {ids[0]: (ks[0], ks[1]), ids[1]: (ks[0], ks[2]), ids[2]: (ks[3], ks[0])}}, dt,
+                twin_fields)
+    plain_fields = [F("a"), F("b"), F("c", O, ("value", 1)), F("d", O, ("value", "x"))]
+    for i in range(0, len(keys), 4):
+        ks = (keys[i:i + 4] + keys[:4])[:4]
+        for dt in dts:
+            add(f"keys{i // 4}/map+omit", plain_fields, {"map": dict(zip("abcd", ks))}, dt, omit=True)
+            add(f"keys{i // 4}/map", plain_fields, {"map": dict(zip("abcd", ks))}, dt)
+    for i, mn in enumerate(family.HOSTILE_MODEL_NAMES):
+        add(f"model-name{i}/plain", plain_fields, {}, dts[i % len(dts)], model_name=mn)
+    for dt in dts:
+        tdf = [F("from"), F("class"), F("a", O)]
+        add("typeddict-keywords/plain", tdf, {}, dt, family._benign_twin_fields(tdf), kind="typeddict")
+    return cases
+
+
+def dumper_family(tier="quick", group="base"):
+    if group == "hostile":
+        return hostile_dumper_family(tier)
     from adaptix import DebugTrail
     from .family import F, O
     models = {
@@ -363,11 +410,12 @@ def dumper_family(tier="quick"):
 
 # ------------------------------------------------------------------------------------------ driver
 def verify_dump_case(job):
-    idx, tier, seed = job
+    idx, tier, seed = job[:3]
+    group = job[3] if len(job) > 3 else "base"
     try:
         from pyvc import extract
         extract.ensure_repo_on_path()
-        case = dumper_family(tier)[idx].build()
+        case = dumper_family(tier, group)[idx].build()
         return _verify(case, tier, seed)
     except Exception:  # noqa: BLE001
         return {"label": f"dump-case#{idx}", "error": ("crash", traceback.format_exc()[-1500:]), "obls": [], "failures": [],
@@ -387,6 +435,10 @@ def _verify(case, tier, seed):
         return out
     src = cap["dumper_src"]
     out["src_sha"] = hashlib.sha256(src.encode()).hexdigest()[:16]
+    structure = None
+    if getattr(case, "twin", None) is not None:
+        from .check import structure_obligation
+        structure = structure_obligation(case, src, "dumper_src")
     try:
         run = DumperRun(src, cap["dumper_ns"], case)
         exp = DumpExpect(run, case)
@@ -402,6 +454,15 @@ def _verify(case, tier, seed):
             o = Obl(f"{case.label}/{cname}/p{k}", cname, list(s.pc), goal, "post", k, s)
             o.props, o.note = props, note
             obls.append(o)
+    if structure is not None:
+        o = Obl(f"{case.label}/structure-unchanged", "structure-unchanged", [], z3.BoolVal(structure[0]), "post", 0, run.st0)
+        o.props, o.note = ["C19"], structure[1]
+        obls.append(o)
+        for o2 in obls:
+            # the strong omit-default clause is the recorded C03 finding (dumped value compared); hostility is judged on the
+            # as-is clause
+            if "C19" not in (o2.props or []) and o2.clause.split(":")[0] != "omit-default":
+                o2.props = list(o2.props or []) + ["C19"]
     t1 = time.time()
     discharge(run.interp, obls, 6000 if tier == "quick" else 60000, ext_budget=(6000 if tier == "quick" else None))
     out["solver_time"] = time.time() - t1
